@@ -489,6 +489,10 @@ void DocumentBuilder::proc_instance_line() { currentInstanceLine = &currentTempl
  */
 void DocumentBuilder::instance_name(const char* name, bool templ)
 {
+    if (currentInstanceLine == nullptr || currentTemplate == nullptr) {
+        handle_error(TypeException("Must be declared inside of an LSC template"));
+        return;
+    }
     symbol_t uid;
     if (templ) {
         string instName = string(name);
